@@ -197,6 +197,7 @@ class Client:
         self.first_default = {}
         self.parse_memo = {}
         self.extra_loaded = False
+        self.loaded_texts = []
 
 
 def _outcome(fn):
@@ -331,6 +332,8 @@ def exec_op(cl: Client, op, stats, mode, peers=None):
 
                 c2 = cstruct(endian=cs.endian, pointer=cl.spec["cfg"]["pointer"])
                 c2.load(gen.render(cl.spec["defs"]), compiled=cl.spec["cfg"]["compiled"], align=cl.spec["cfg"]["align"])
+                for text in cl.loaded_texts:
+                    c2.load(text, compiled=cl.spec["cfg"]["compiled"], align=cl.spec["cfg"]["align"])
                 t2 = getattr(c2, op["t"])
                 if op.get("bytes"):
                     return ["val", observe(t2(data)), -1]
@@ -398,12 +401,15 @@ def exec_op(cl: Client, op, stats, mode, peers=None):
         cs.endian = op["e"]
         return ["ok"]
     if k == "load_more":
-        cl.extra_loaded = True  # a successful or half-way load_more may legitimately replace/extend names
-
         def f():
             cs.load(op["text"], compiled=cl.spec["cfg"]["compiled"], align=cl.spec["cfg"]["align"])
             return ["ok"]
-        return _outcome(f)
+        out = _outcome(f)
+        if out == ["ok"]:
+            cl.loaded_texts.append(op["text"])  # the fresh-object reference replays successful loads
+        else:
+            cl.extra_loaded = True  # a load that failed half-way may legitimately have registered part of its text
+        return out
     if k == "load_bad":
         cl.extra_loaded = True
         return _outcome(lambda: (cs.load(op["text"]), ["ok"])[1])
